@@ -395,13 +395,15 @@ def check_coercion_identity(prog: Program, rep, rule: str) -> None:
     tripped through the preferred unit)."""
     from .. import algebra as A
     from ..abseval import Ctx, Evaluator, Inst, Scalar, State, SymObj, Undecided, cond_leaves
-    ev = Evaluator(prog, hooks=C.pref_hooks(prog))
+    hooks = C.pref_hooks(prog)
+    ev = Evaluator(prog, hooks=hooks)
     umod = prog.module(C.M_UNIT)
     call = prog.func(C.M_UNIT, 'Unit.__call__')
     st = State()
     q = C.mk_quantity(ev, st, prog, 'Distance', 'raw', 'Meter')
+    slot = hooks['classattr:PreferredUnits.distance'](ev, None, 'distance')     # some unit of length (finite domain)
     try:
-        r = ev.call_func(call, [q], {}, st, Ctx(umod, None, None, 0), self_val=SymObj('PreferredUnits.distance', C.unit_class(prog)))
+        r = ev.call_func(call, [q], {}, st, Ctx(umod, None, None, 0), self_val=slot)
     except Undecided as exc:
         raise AnalysisError(f'Unit.__call__ on a quantity: {exc}') from exc
     outs = [x for _p, x in cond_leaves(r)]
